@@ -7,6 +7,7 @@ import (
 	"fmt"
 	"hash/fnv"
 	"io"
+	"runtime"
 	"sort"
 	"strconv"
 	"strings"
@@ -667,6 +668,11 @@ func runOne(cfg Config, prefix []string, stopAtPrefix bool) *trace {
 	w := newWorld(cfg)
 	t.w = w
 	defer func() {
+		defer func() {
+			if execCount++; execCount%20 == 0 {
+				runtime.GC() // (automatic collection is off, see workerMain)
+			}
+		}()
 		t.w = nil
 		if !w.teardown() {
 			if t.Inconclusive == "" && len(t.Viol) == 0 {
@@ -919,11 +925,13 @@ func simpler(a, b []string) bool {
 // execution is inconclusive (an observation taken too early can therefore not become an alarm).
 func runChecked(cfg Config, prefix []string, stop bool) *trace {
 	var t *trace
-	for try := 0; try < 3; try++ {
+	for try := 0; try < 5; try++ {
 		t = runOne(cfg, prefix, stop)
 		if t.Inconclusive == "" || poisoned {
 			break
 		}
+		// the machine (or this process) was stalled: let it recover before the next attempt
+		time.Sleep(time.Duration(try+1) * 200 * time.Millisecond)
 	}
 	if t.Inconclusive != "" || len(t.Viol) == 0 {
 		return t
@@ -967,6 +975,7 @@ func runChecked(cfg Config, prefix []string, stop bool) *trace {
 }
 
 var unconfirmed int64
+var execCount int64
 
 // exploreSubtree enumerates every execution that starts with prefix (stateless DFS: run the
 // prefix, continue with first choices, then branch on every alternative recorded on the way).
